@@ -918,7 +918,12 @@ func (cc *Conn) handleSpecialMessages(r *pool.Message) bool {
 		return true
 	}
 
-	// if waits for concrete message handler
+	// if waits for concrete message handler: only an acknowledgement or a reset carries the message ID
+	// of one of our own messages; requests and separate responses are numbered by the peer, and a
+	// coinciding ID must not take the handler away from the acknowledgement it is waiting for.
+	if r.Type() != message.Acknowledgement && r.Type() != message.Reset {
+		return false
+	}
 	if elem, ok := cc.midHandlerContainer.LoadAndDelete(r.MessageID()); ok {
 		elem.ReleaseMessage(cc)
 		resp := cc.AcquireMessage(cc.Context())
